@@ -564,7 +564,7 @@ func init() {
 		Rule: "case k: reading mode = {normal, as-defaults}[k mod 2], naming form = {ini-name in random case, field name, namespaced long name, short name}[k/2 mod 4], crossing pattern = {none, A's ini-name = B's field name, A's field name = B's long name, A's one-letter long name = B's short name}[k/8 mod 4]; a random declaration (nested namespaced groups, commands to depth 2 incl. Commander nodes with AddGroup'ed groups, non-ASCII short names), a section chosen among {preamble, group description in random case, dotted command path, command path + group description} and 1-3 entries (bare transparent values or Go string literals; flag forms true / empty / false). " +
 			"Oracle (metamorphic + priority resolver): IniParser.Parse followed by ParseArgs(command path) on one fresh parser versus ParseArgs(command path + --flag=value per entry) on another, where the flag is that of the option the name should resolve to by the stated priority: equal value snapshots, equal call logs, equal error-ness. distinct = (mode, form, crossing, type, #entries, quoted, depth).",
 		Assumptions: []string{"`flag = false` has no command-line counterpart: only 'stores false' is asserted", "same-priority ties are not generated", "options with unquote:\"false\" get bare values only"},
-		Technique:   "runtime metamorphic monitor: INI run versus equivalent-flags run on two fresh parsers, with an independent name-priority resolver choosing the denoted option",
+		Technique:   "runtime metamorphic monitor: INI run versus equivalent-flags run on two fresh parsers, with an independent name-priority resolver choosing the denoted option; multi-step histories on one parser with direct oracles",
 		LevelText:   "Exploration over naming forms x crossing patterns x sections x modes; metamorphic, so no expected values are needed beyond the priority rule the statement spells out.",
 		LevelNote:   "Trusted: the priority resolver (a transcription of the statement) and the section model.",
 		DesignRef:   "§4 C13",
